@@ -1,7 +1,7 @@
 (* Facts about the rewrite model (Model/Rewrite.v) and text-mode I/O (Model/Files.v):
    C03 / C04 (matches, splicing, line separators, newline translation), C06 / C13 (file level). *)
 From Coq Require Import List Bool NArith Arith Lia Permutation Sorted.
-From BV Require Import Lib.PyStr Gen.Tables Model.Rewrite Model.Files.
+From BV Require Import Lib.PyStr Gen.Tables Lib.Regex Proofs.RegexFacts Model.V2 Model.Rewrite Model.Files.
 Import ListNotations.
 
 (* ================================================================== A. strings *)
@@ -158,6 +158,46 @@ Proof.
   apply ifp_in in H as (H1 & H2 & H3 & H4 & H5). rewrite Nat.sub_0_r in H4. subst p.
   repeat split; auto.
   apply (Hok _ Hp) in H4. lia.
+Qed.
+
+(* the v2 matcher satisfies span_ok, so the hypothesis of iter_matches_in_line holds for every compiled pattern *)
+Lemma hd_error_in : forall A (l : list A) x, hd_error l = Some x -> In x l.
+Proof. intros A [|y l] x H; simpl in *; [discriminate|]. injection H as ->. left; auto. Qed.
+
+Lemma search_go_bounds : forall fuel n0 r s off o e rest, search_go fuel n0 r off s = Some (o, e, rest) ->
+  (off <= o)%nat /\ (o - off + length rest <= length s)%nat.
+Proof.
+  intros fuel n0 r. induction s as [|c t IH]; intros off o e rest H.
+  - simpl in H. destruct (first_match fuel n0 r []) as [[e' s']|] eqn:F; [|discriminate].
+    injection H as <- <- <-. apply hd_error_in, rems_len in F. lia.
+  - simpl in H. destruct (first_match fuel n0 r (c :: t)) as [[e' s']|] eqn:F.
+    + injection H as <- <- <-. apply hd_error_in, rems_len in F. lia.
+    + apply IH in H. simpl. lia.
+Qed.
+
+Lemma search_of_span_ok : forall r line a b, search_of r line = Some (a, b) -> (a <= b <= length line)%nat.
+Proof.
+  intros [rx|] line a b H; simpl in H; [|discriminate].
+  unfold search_span, re_search in H.
+  destruct (search_go (S (length line)) (length line) rx 0 line) as [[[o e] rest]|] eqn:S; [|discriminate].
+  injection H as <- <-. apply search_go_bounds in S. lia.
+Qed.
+
+Theorem v2_cpat_span_ok : forall vp raw nv p, v2_cpat vp raw nv = Some p -> span_ok p.
+Proof.
+  intros vp raw nv p H. unfold v2_cpat in H.
+  destruct (compile_pattern_re (normalize_pattern vp raw)) as [rx|]; [|discriminate].
+  destruct (format_version nv (normalize_pattern vp raw)); [|discriminate].
+  injection H as <-. intros line a b Hs. cbn [cp_search] in Hs. eapply search_of_span_ok; exact Hs.
+Qed.
+
+Theorem v2_cpats_span_ok : forall vp raws nv pats, v2_cpats vp raws nv = Some pats -> forall p, In p pats -> span_ok p.
+Proof.
+  intros vp raws nv. induction raws as [|r t IH]; intros pats H p Hp; cbn [v2_cpats] in H.
+  - injection H as <-. contradiction.
+  - destruct (v2_cpat vp r nv) as [c|] eqn:C; [|discriminate].
+    destruct (v2_cpats vp t nv) as [l|]; [|discriminate].
+    injection H as <-. destruct Hp as [<-|Hp]; [eapply v2_cpat_span_ok; eauto|eapply IH; eauto].
 Qed.
 
 (* ------------------------------------------------------------------ list helpers *)
@@ -706,7 +746,7 @@ Proof.
       [|apply Exists_cons_hd; unfold nc_of; simpl; rewrite Hfs; reflexivity].
     destruct (new_content pats c) as [nc|] eqn:Hnc;
       [|apply Exists_cons_hd; unfold nc_of; simpl; rewrite Hfs; exact Hnc].
-    rewrite (Hx (path, pats) c nc (or_introl eq_refl) Hfs Hnc) in H.
+    pose proof (Hx (path, pats) c nc (or_introl eq_refl) Hfs Hnc) as Hx0. simpl in Hx0. rewrite Hx0 in H.
     destruct (diff_each fs changed t) as [r' l'] eqn:D.
     injection H as -> <-.
     apply Exists_cons_tl. eapply IH; eauto.
